@@ -14,6 +14,7 @@ TECHNIQUE = "deterministic simulation: hostile destination strings pushed throug
 RULE = ("plans: inbound codec (HTTP CONNECT line, SOCKS4a, SOCKS5 domain/IPv4/IPv6, SOCKS5-UDP header, RPFM header) x outbound codec (HTTP CONNECT+Host, SOCKS4/4a, SOCKS5, "
         "direct via the DNS seam, RPFM, SOCKS5-UDP) x host from a hostile pool (length 0,1,3,4,253-256,300,70000; space, CR, LF, NUL, ':', '@', brackets, non-UTF-8; "
         "all-digit names; every address family) x port (0,1,65535,random) x short writes; non-trivial = the host is not a plain short ASCII name; distinct = (pair, host class)")
+RULE_MORE = "Later additions: the next hop's reference parser of a CONNECT authority is the strict RFC 3986 one (brackets only around IPv6 literals, no gen-delims in a name); names with URI delimiters, with a colon followed by digits, bracketed literals in SOCKS name fields; special IPv4/IPv6 literals; disagreeing Host headers."
 LEVEL_TEXT = ("seeded exploration through two real hops: what the next hop's strict reference parser extracts must be exactly the destination the client asked for, with no "
               "additional lines, headers or fields - or the request must be refused; truncation, re-splitting at NUL, lossy recoding, CRLF injection and length-byte "
               "overflow all show up as a differing destination with both byte strings in the report")
